@@ -49,6 +49,11 @@ def corpus(tier, seed):
               std_spec("disc2", s + 35, 50),
               std_spec("gauss2", s + 36, 50, plot=True, kills=[170]),      # the sampler's own diagnostics enabled
               std_spec("rect3", s + 37, 50, n_pool=2, memory=20, training_frequency=30)]
+    # the initial live set alone (prior_sampling: populate, then finalise at once) on models where draws are
+    # rejected while it is drawn: no duplicates, sorted, valid - many seeds, a second each
+    for k_ in range(24 if tier == "quick" else 120):
+        m_ = ("hole2", "trunc2", "disc2")[k_ % 3]
+        specs.append(std_spec(m_, s + 400 + k_, (10, 20, 30, 50)[k_ % 4], prior_sampling=True))
     if tier == "thorough":
         k = 13
         for model in ("gauss2", "plateau2", "hole2", "rosen2", "gauss4", "nonuni2"):
